@@ -694,3 +694,74 @@ Proof.
   destruct (lowest_spec batch [] T4 b Hb) as (n & Hn & Hle). apply alookup_In in Hn.
   pose proof (F3 _ _ x Hn Hx Es). lia.
 Qed.
+
+(** ---------- C06: the per-sender byte limit when all transactions have the same size ---------- *)
+
+Definition bytes_ok (cfg : config) (p : pool) : Prop :=
+  forall a, sum_sizes (pool_for_sender p a) <= numBytesPerSenderThreshold cfg.
+
+Lemma removelast_app_last {A} (l : list A) x : removelast (l ++ [x]) = l.
+Proof. apply removelast_last. Qed.
+
+Lemma bytes_ok_add_core cfg p t s : Inv p -> agrees p t -> tx_wf t -> 0 <= s -> size t = s ->
+  (forall x, In x (pool_txs p) -> size x = s) -> bytes_ok cfg p -> bytes_ok cfg (fst (add_core cfg p t)).
+Proof.
+  intros HI Hag Hwf Hs Hst Hun Hb. destruct (add_core_spec cfg p t HI Hag Hwf) as (_ & Hspec).
+  destruct (alookup (byHash p) (hash t)); [destruct Hspec as (-> & _); exact Hb|].
+  destruct Hspec as (_ & l' & _ & Hperm & Hl). intros b. rewrite Hl.
+  destruct (beqb_spec (sender t) b) as [<-|]; [|apply Hb].
+  assert (Hsum : sum_sizes l' = s + sum_sizes (pool_for_sender p (sender t))) by (rewrite (sum_sizes_perm _ _ Hperm); simpl; lia).
+  assert (Hl'un : forall x, In x l' -> size x = s).
+  { intros x Hx. apply (Permutation_in _ Hperm) in Hx. destruct Hx as [<-|Hx]; [exact Hst|].
+    apply Hun. apply (listed_iff_in _ _ (proj1 (proj2 HI))). apply (pool_for_sender_in _ _ _ (proj1 (proj2 HI))) in Hx. apply Hx. }
+  assert (Hne : l' <> []) by (intros E; rewrite E in Hperm; apply Permutation_nil in Hperm; discriminate).
+  destruct (exists_last Hne) as (l0 & y & El). subst l'.
+  assert (Hy : size y = s) by (apply Hl'un; apply in_or_app; right; left; reflexivity).
+  rewrite sum_sizes_app in Hsum. simpl in Hsum. specialize (Hb (sender t)).
+  unfold over_limits. destruct (numBytesPerSenderThreshold cfg <? sum_sizes (l0 ++ [y])) eqn:E1; simpl.
+  - rewrite removelast_app_last. lia.
+  - apply Z.ltb_ge in E1. destruct (countPerSenderThreshold cfg <? Z.of_nat (length (l0 ++ [y]))) eqn:E2; [|exact E1].
+    rewrite removelast_app_last. rewrite sum_sizes_app in E1. simpl in E1. lia.
+Qed.
+
+Lemma bytes_ok_sub cfg q p : Inv q -> Inv p -> sub_pool q p -> (forall x, In x (pool_txs p) -> 0 <= size x) ->
+  bytes_ok cfg p -> bytes_ok cfg q.
+Proof.
+  intros HIq HIp Hsub Hpos Hb a. eapply Z.le_trans; [|apply (Hb a)].
+  apply sum_sizes_incl; [apply sorted_NoDup, inv_sorted; exact HIq| |].
+  - intros x Hx. apply (pool_for_sender_in q a x (proj1 (proj2 HIq))) in Hx. destruct Hx as (Hl & Es).
+    apply (pool_for_sender_in p a x (proj1 (proj2 HIp))). split; [apply Hsub; exact Hl|exact Es].
+  - intros x Hx. apply Hpos. apply (pool_for_sender_in p a x (proj1 (proj2 HIp))) in Hx.
+    apply (listed_iff_in _ _ (proj1 (proj2 HIp))). apply Hx.
+Qed.
+
+(** for histories whose transactions all have the same size (one drop always suffices) the byte limit holds *)
+Theorem run_pool_bytes_ok_uniform cfg ops s : hist_ok ops -> 0 <= s -> 0 <= numBytesPerSenderThreshold cfg ->
+  (forall t, In t (added_txs ops) -> size t = s) -> bytes_ok cfg (run_pool cfg ops).
+Proof.
+  intros Hok Hs Hb0 Hun. induction ops as [|o ops IH] using rev_ind.
+  - intros a. simpl. exact Hb0.
+  - pose proof (hist_ok_prefix _ _ Hok) as Hok'.
+    assert (Hun' : forall t, In t (added_txs ops) -> size t = s) by (intros t Ht; apply Hun; rewrite added_txs_app; apply in_or_app; left; exact Ht).
+    specialize (IH Hok' Hun'). destruct (run_pool_inv2 cfg ops Hok') as (HI & Hadds). rewrite run_pool_snoc.
+    assert (Hpool_un : forall q, Inv q -> lookup_sub q (run_pool cfg ops) -> forall x, In x (pool_txs q) -> size x = s).
+    { intros q HIq Hls x Hx. apply Hun'. apply (listed_iff_in _ _ (proj1 (proj2 HIq))) in Hx. apply HIq in Hx. apply Hls in Hx. eapply Hadds. exact Hx. }
+    destruct o as [t|h| |sess g m]; simpl; [| |intros a; exact Hb0|exact IH].
+    + assert (Hag : agrees (run_pool cfg ops) t).
+      { intros t' Ht'. destruct Hok as (Hinj & _). apply Hinj.
+        - rewrite added_txs_app. apply in_or_app. left. eapply Hadds. exact Ht'.
+        - rewrite added_txs_app. apply in_or_app. right. left. reflexivity.
+        - destruct HI as ((_ & Hh & _) & _). apply Hh. exact Ht'. }
+      assert (Hwf : tx_wf t) by (destruct Hok as (_ & Hwf); apply Hwf; rewrite added_txs_app; apply in_or_app; right; left; reflexivity).
+      assert (Hst : size t = s) by (apply Hun; rewrite added_txs_app; apply in_or_app; right; left; reflexivity).
+      unfold add_tx. destruct (evictionEnabled cfg).
+      * destruct (Inv_do_eviction cfg _ HI) as (HI' & Hsub).
+        apply (bytes_ok_add_core cfg _ t s); [exact HI'|apply (sub_pool_agrees (run_pool cfg ops)); assumption|exact Hwf|exact Hs|exact Hst| |].
+        -- apply (Hpool_un _ HI'). apply do_eviction_lookup. exact HI.
+        -- apply (bytes_ok_sub cfg _ (run_pool cfg ops)); [exact HI'|exact HI|exact Hsub| |exact IH].
+           intros x Hx. rewrite (Hpool_un _ HI (fun h0 x0 H0 => H0) x Hx). exact Hs.
+      * apply (bytes_ok_add_core cfg _ t s); [exact HI|exact Hag|exact Hwf|exact Hs|exact Hst| |exact IH].
+        apply (Hpool_un _ HI). intros h0 x0 H0. exact H0.
+    + apply (bytes_ok_sub cfg _ (run_pool cfg ops)); [apply Inv_remove_tx; exact HI|exact HI|apply remove_tx_sub; exact HI| |exact IH].
+      intros x Hx. rewrite (Hpool_un _ HI (fun h0 x0 H0 => H0) x Hx). exact Hs.
+Qed.
